@@ -25,8 +25,10 @@ def mk_inputs(nr, nl, nc, nt, tagf=lambda *a: '', tag=''):
     col = Arr('col', default=lambda k: X.atom(f'theta{tag}[{k}]'), shape=(nc,))
     tim = Arr('time', default=lambda k: X.atom(f't{tag}[{k}]'), shape=(nt,))
     rad = Arr('r', default=lambda k: X.atom(f'r{tag}[{k}]', 'pos'), shape=(nr,))
-    shear = Arr('mu', default=lambda k: X.atom(f'mu{tag}[{k}]', 'complex'), shape=(nr,))
-    bulk = Arr('K', default=lambda k: X.atom(f'K{tag}[{k}]', 'complex'), shape=(nr,))
+    # complex moduli written out as re + i im with real atoms: a test on the imaginary part of a modulus (an elastic slice) is then a statement about one atom and its
+    # arm can be entered by pinning that atom
+    shear = Arr('mu', default=lambda k: X.atom(f'mu_re{tag}[{k}]', 'pos') + X.I * X.atom(f'mu_im{tag}[{k}]'), shape=(nr,))
+    bulk = Arr('K', default=lambda k: X.atom(f'K_re{tag}[{k}]', 'pos') + X.I * X.atom(f'K_im{tag}[{k}]'), shape=(nr,))
     return pots, y, lon, col, tim, rad, shear, bulk
 
 
